@@ -442,14 +442,32 @@ struct X : Exec {
 // ===================================================================== create_basic_sender (safe callbacks)
 namespace cbs {
 struct World {
-  bool a = true, b = true;
+  bool a = true, b = true, hlock = false;
   inplace_stop_source src;
   OpBase* holder = nullptr;
   int completions = 0, bodyRan = 0;
   bool published = false;
   std::function<void(int)> cb;       // copy of safe_callback<int>(op), handed to the "external API" (thread A)
+  int lockOwner = 0, lockDepth = 0;  // the harness lock (lk = 1)
 };
 static World* W = nullptr;
+// User lock factory (a documented customisation of create_basic_sender): a recursive lock with a schedule point in
+// front of every acquisition, so that "tested something, then took the lock" stretches of the library are exposed to
+// the scheduler without a hook in the library.  One logical thread runs at a time, so plain fields suffice; a
+// contended acquisition is a schedulable spin, never a blocked OS thread.
+struct HGuard {
+  World* w;
+  HGuard() noexcept : w(W) {
+    UNIFEX_VERIF_YIELD("race.h_lock");
+    int me = vrt::self_id();
+    while (w->lockDepth > 0 && w->lockOwner != me) UNIFEX_VERIF_SPIN("race.h_lockw");
+    w->lockOwner = me; ++w->lockDepth;
+  }
+  HGuard(const HGuard&) = delete;
+  ~HGuard() noexcept { if (--w->lockDepth == 0) w->lockOwner = 0; }
+};
+struct HLockFactory { HGuard operator()() const noexcept { return HGuard{}; } };
+struct NoCtx { std::tuple<> operator()() const noexcept { return {}; } };
 struct Recv {
   static void complete(const char* ch) noexcept {
     World* w = W;
@@ -485,12 +503,19 @@ struct X : Exec {
   World w;
   void (*startFn)(OpBase*) = nullptr;
   explicit X(const json& s) {
-    w.a = s["a"].get<int>() == 1; w.b = s["b"].get<int>() == 1;
+    w.a = s["a"].get<int>() == 1; w.b = s["b"].get<int>() == 1; w.hlock = s.value("lk", 0) == 1;
     W = &w;
-    using S = decltype(create_basic_sender<int>(Body{}));
-    using H = Holder<connect_result_t<S, Recv>>;
-    w.holder = new H([] { return unifex::connect(create_basic_sender<int>(Body{}), Recv{}); });
-    startFn = [](OpBase* h) { unifex::start(static_cast<H*>(h)->op); };
+    if (w.hlock) {
+      using S = decltype(create_basic_sender<int>(Body{}, NoCtx{}, HLockFactory{}));
+      using H = Holder<connect_result_t<S, Recv>>;
+      w.holder = new H([] { return unifex::connect(create_basic_sender<int>(Body{}, NoCtx{}, HLockFactory{}), Recv{}); });
+      startFn = [](OpBase* h) { unifex::start(static_cast<H*>(h)->op); };
+    } else {
+      using S = decltype(create_basic_sender<int>(Body{}));
+      using H = Holder<connect_result_t<S, Recv>>;
+      w.holder = new H([] { return unifex::connect(create_basic_sender<int>(Body{}), Recv{}); });
+      startFn = [](OpBase* h) { unifex::start(static_cast<H*>(h)->op); };
+    }
   }
   std::vector<int> threads() override {
     std::vector<int> v{1};
